@@ -1030,6 +1030,38 @@ def ctorKwM (props : M) : M :=
     | .py (.dict kvs) => (match Serialize.construct kvs with | .ok d => .ok (.decoded d) | .error _ => raiseM)
     | _ => raiseM
 
+/-! ### the two rules that lean on libraries: `re` and `ipaddress` (the models of `Model/Regex.lean`, `Model/Cidr.lean`) -/
+
+/-- `str(x)` where the text matters: defined for `None`, booleans, integers and strings (`pyStr`); other values are outside the
+modelled domain and read as an exception, like in the model's `evalRegex` -/
+def strPyM (a : M) : M :=
+  bindM a fun x => match x with
+    | .py v => (match pyStr v with | some s => .ok (.py (.str s)) | Option.none => raiseM)
+    | _ => raiseM
+
+/-- `self.regex.match(text)` for the pattern the rule was built from: a match object (true) or `None`, at the start of the text;
+a pattern outside the modelled subset reads as an exception -/
+def reMatchM (pat text : M) : M :=
+  bindM pat fun p => bindM text fun t => match p, t with
+    | .py (.str ps), .py (.str s) =>
+      (match parsePattern (Rule.stripAnchors ps).1 with
+       | .ok r _ => ofBool (if (Rule.stripAnchors ps).2 then r.acceptsDollar s else r.matchesPrefix s)
+       | _ => raiseM)
+    | _, _ => raiseM
+
+/-- `try: ip = ipaddress.ip_address(a); net = ipaddress.ip_network(n)  except ValueError: HANDLER`, then `ip in net` -/
+def ipInNetM (a n : M) (handler : M) : M :=
+  bindM a fun x => bindM n fun y => match x, y with
+    | .py (.str av), .py (.str nv) =>
+      (match Cidr.parseAddr av with
+       | Option.none => handler
+       | some (v, ip) =>
+         match Cidr.parseNet nv with
+         | .ok v' net p => ofBool (Cidr.contains v' net p v ip)
+         | _ => handler)
+    | .py (.str av), _ => (match Cidr.parseAddr av with | Option.none => handler | some _ => handler)
+    | _, _ => raiseM
+
 /-! ### generators: `while True` with a bound on the rounds, the abstract `get_all` of a storage -/
 
 /-- `while True: BODY` where the body ends the function or goes on with the next round; `fuel` bounds the rounds (out of fuel,
@@ -1072,6 +1104,13 @@ def notifyM (w : M) (k : V → M) : M :=
   bindM w fun w => match w with
     | .eworld cfg s t nt Option.none => k (.eworld cfg s t (nt + 1) Option.none)
     | _ => raiseM
+
+/-- `self.storage.<meth>(*args, **kwargs)` / `self.cache.<meth>(*args, **kwargs)`: the positional arguments are passed on as they
+came (keyword arguments are outside the modelled calls) -/
+def stCallStarM (target meth : String) (args kwargs w : M) (k : V → V → M) : M :=
+  bindM args fun a => bindM kwargs fun kw => match a, kw with
+    | .seq vs, .py (.dict []) => stCallM target meth (vs.map Except.ok) w k
+    | _, _ => raiseM
 
 /-- `return x` of a method that acts on a world: the value and the world -/
 def pairM (x w : M) : M := bindM x fun x => bindM w fun w => .ok (.seq [x, w])
